@@ -17,8 +17,8 @@ Open Scope N_scope.
 Definition acase := (N * proc * obs)%type.
 
 (* the fake agents die at once when killed *)
-Definition Pr (a b c : option N) : proc :=
-  {| p_self := a; p_stdin := b; p_term := c; p_kill := Some 0 |}.
+Definition Pr (a b c : option N) (linger : bool) : proc :=
+  {| p_self := a; p_stdin := b; p_term := c; p_kill := Some 0; p_linger := linger |}.
 Definition Ob (r dd : bool) (t : N) (e tm : option N) (k : bool) (nz : N) : obs :=
   {| ob_returned := r; ob_dead := dd; ob_ret := t; ob_eof := e; ob_term := tm; ob_killed := k;
      ob_noise := nz |}.
